@@ -99,8 +99,9 @@ package tree
 
 // rollback callbacks registered on a transaction (ghost counter) and what the tree's callback does to lastIndex
 //@ ghost field undoCnt int
-//@ spec fn undoStep(l int) int = l - 1
-//@ spec fn rollbackIndex(l int, k int) int = l - k
+// the callback invalidates the cache (lastIndex = -2); k >= 1 callbacks therefore leave -2
+//@ spec fn undoStep(l int) int = 0 - 2
+//@ spec fn rollbackIndex(l int, k int) int = ite(k <= 0, l, 0 - 2)
 //@ lemma rollbackClosedForm(l int, k int)
 //@   props C07
 //@   requires k >= 0
@@ -146,7 +147,7 @@ package tree
 //@   props C01 C07
 //@   requires t != nil && t.Tree != nil && tx != nil
 //@   requires len(t.zeroHashes) == 33 && forall(k, 0, 33, t.zeroHashes[k] == zeroAt(k))
-//@   requires 0 <= solCount(t) && solCount(t) < 4294967295 && 0 <= txCount(t) && txCount(t) <= solCount(t)
+//@   requires 0 <= solCount(t) && solCount(t) < 4294967295 && 0 <= txCount(t) && txCount(t) < 4294967295 && txCount(t) <= solCount(t)
 //@   requires t.lastIndex + 1 == solCount(t) && leaf.Index == solCount(t)
 //@   requires forall(h, 0, 32, bitAt(leaf.Index, h) ==> t.lastLeftCache[h] == solBranch(t)[h])
 //@   requires undoCnt(tx) == solCount(t) - txCount(t)
